@@ -6,11 +6,11 @@ CONSTANTS
   Reserve = TRUE
   Titles <- TitleClasses
   Stack = 64
-  WorkList = FALSE
+  WorkList = TRUE
   DestSpellings = {"none"}
-  FollowRefs = FALSE
+  FollowRefs = TRUE
   IdLimits = {1000000}
-  CheckedIds = FALSE
+  CheckedIds = TRUE
   Emit = TRUE
 INVARIANTS RefinesForest RefinesAdjust RefinesFresh RefinesLinks RefinesCarries RefinesToc Verdict NoAbort RefusedOk EmitInv
 PROPERTIES Reserved
